@@ -32,6 +32,6 @@ try:
             print('   UNPROVED', q)
             if '-v' in sys.argv and ta:
                 for l in difflib.unified_diff(tb.split('\n'), ta.split('\n'), 'reference', 'current', lineterm='', n=2):
-                    print('      ', l[:230])
+                    print("      ", l[:int(os.environ.get("W","230"))])
 finally:
     shutil.rmtree(tmp, ignore_errors=True)
